@@ -859,4 +859,54 @@ def AlgLoop.brkAt (A : AlgLoop) (n : Nat) : Option Int :=
   | some (.giv k) => (A.givs[k]?).map fun p => iterW p.1 p.2 n
   | some .inner => none
 
+/-! ## The use collector of DCE (`dead_code_elimination.rs:10-88`), one clause per syntactic position
+
+`collect_use_from_stmt` feeds (a) statement deletion, (b) which loop variables the `While` arm keeps
+(`…:176-193`) and (c) `useful_used_set` of `loop_optimizations::expand_optimizable_while_loop`. -/
+
+inductive US where
+  | bin (x : Nat) (a b : Operand)                       -- operands
+  | un (x : Nat) (a : Operand)                          -- Not / IsPointer / Cast / LateInitAssignment source
+  | idx (x : Nat) (p : Operand)                         -- IndexedAccess: the pointer
+  | strct (x : Nat) (fields : List Operand)             -- StructInit: every field
+  | clo (x : Nat) (ctx : Operand)                       -- ClosureInit: the context
+  | call (callee : Option Nat) (args : List Operand) (ret : Option Nat)   -- variable callee + arguments
+  | brk (a : Operand)                                   -- break value
+  deriving Repr, DecidableEq
+
+/-- names read by one statement; `calleeCounts = false` is the collector with the callee clause dropped -/
+def US.uses (calleeCounts : Bool) : US → List Nat
+  | .bin _ a b => a.vars ++ b.vars
+  | .un _ a => a.vars
+  | .idx _ p => p.vars
+  | .strct _ fs => fs.flatMap Operand.vars
+  | .clo _ c => c.vars
+  | .call callee args _ => (if calleeCounts then callee.toList else []) ++ args.flatMap Operand.vars
+  | .brk a => a.vars
+
+def US.defn : US → Option Nat
+  | .bin x _ _ | .un x _ | .idx x _ | .strct x _ | .clo x _ => some x
+  | .call _ _ ret => ret
+  | .brk _ => none
+
+/-- statements that are kept whatever their result (calls: effects; Break) -/
+def US.mustStay : US → Bool
+  | .call _ _ _ | .brk _ => true
+  | _ => false
+
+def US.kept (s : US) (l : List Nat) : Bool :=
+  s.mustStay || (match s.defn with | some x => l.contains x | none => true)
+
+/-- backward DCE of a block: (kept statements, names used at entry) -/
+def dceU (cc : Bool) : List US → List Nat → List US × List Nat
+  | [], live => ([], live)
+  | s :: r, live =>
+    if s.kept (dceU cc r live).2 then (s :: (dceU cc r live).1, s.uses cc ++ (dceU cc r live).2)
+    else dceU cc r live
+
+/-- the `While` arm: a loop variable survives only if something inside the loop reads it -/
+def keptLoopVars (cc : Bool) (lvs : List (Nat × Operand × Operand)) (body : List US) : List Nat :=
+  let used := lvs.flatMap (fun lv => lv.2.1.vars ++ lv.2.2.vars) ++ body.flatMap (US.uses cc)
+  (lvs.map (·.1)).filter used.contains
+
 end SamVerif.Opt
